@@ -48,22 +48,24 @@ type Observation struct {
 }
 
 type HarnessRun struct {
-	Name         string
-	Fn           *ssa.Function
-	Failures     []*Failure
-	failSeen     map[string]bool
-	Asserts      map[string]*AssertStat
-	UnwindHits   []string
-	Inconclusive []string
-	Paths        int
-	PanicPaths   int
-	sends        int
-	inputs       map[*State][]InputDecl
-	obs          map[*State][]Observation
-	Obligations  []Obligation
-	Traces       []*PathTrace // sampled completed paths with model + observations
-	Assumes      int
-	maxTraces    int
+	Name          string
+	Fn            *ssa.Function
+	Failures      []*Failure
+	failSeen      map[string]bool
+	Asserts       map[string]*AssertStat
+	UnwindHits    []string
+	Inconclusive  []string
+	Paths         int
+	PanicPaths    int
+	sends         int
+	inputs        map[*State][]InputDecl
+	obs           map[*State][]Observation
+	Obligations   []Obligation
+	Traces        []*PathTrace // sampled completed paths with model + observations
+	Assumes       int
+	maxTraces     int
+	CrossChecked  int
+	CrossDisagree int
 }
 
 type AssertStat struct {
@@ -414,7 +416,22 @@ func (e *Exec) assertTerm(st *State, id string, c *Term, msg string) []Outcome {
 	if len(h.Obligations) < 400 {
 		h.Obligations = append(h.Obligations, Obligation{h.Name, id, r, len(st.pc), ms})
 	}
+	if e.xsol != nil && (r == "sat" || r == "unsat") {
+		// second opinion (thorough tier): the same obligation is sent to a different solver
+		r2 := e.xsol.Check(q)
+		h.CrossChecked++
+		if (r2 == "sat" || r2 == "unsat") && r2 != r {
+			h.CrossDisagree++
+			h.Inconclusive = append(h.Inconclusive, fmt.Sprintf("assert %s: solvers disagree (%s vs %s)", id, r, r2))
+			if r == "sat" {
+				e.sol.Pop()
+			}
+			r = "disagree"
+		}
+	}
 	switch r {
+	case "disagree":
+		as.Unknown++
 	case "unsat":
 		as.Discharged++
 	case "sat":
